@@ -679,3 +679,111 @@ package weshnet
 //@ extern berty.tech/weshnet/v2/pkg/secretstore.NewMemberDevice(member, device) (md)
 //@   noeffect
 //@   ensures md != nil
+
+//@ # ======================= C20: account export / restore =======================
+//@ # (vocabulary and assumed contracts: /verif/spec/tararchive.spec)
+
+//@ # ---- restore: one key file
+//@ func readExportSecretKeyFile
+//@   for C20
+//@   safety
+//@   requires reader != nil
+//@   modifies rd(reader)
+//@   ensures [C20.keyfile.read] ret1 == nil ==> ret0 != nil && len(ret0) == expectedSize && expectedSize > 0 && bytes(ret0) == old(rd(reader))
+//@   ensures [C20.keyfile.error] ret1 != nil ==> ret0 == nil
+
+//@ # ---- restore: one log entry; accepted only if the identifier computed from its bytes is the one in its file name
+//@ func readExportCBORNode
+//@   for C20
+//@   safety
+//@   requires reader != nil
+//@   modifies rd(reader)
+//@   ensures [C20.entry.cid-match] ret1 == nil ==> ret0 != nil && nodecid(ret0) == cidparse_s(cidStr) && cborcid(old(rd(reader))) == cidparse_s(cidStr)
+//@   ensures [C20.entry.bytes] ret1 == nil ==> noderaw(ret0) == old(rd(reader)) && blen(old(rd(reader))) == expectedSize && expectedSize > 0
+//@   ensures [C20.entry.error] ret1 != nil ==> ret0 == nil
+
+//@ # ---- restore: the handler of one of the two key files (keyName and state are the captured variables)
+//@ func (*restoreAccountState).readKey$1
+//@   for C20
+//@   safety
+//@   requires keyName != nil && state != nil && deref(state) != nil && deref(state).keys != nil && header != nil && reader != nil
+//@   modifies mapof(deref(state).keys), rd(reader)
+//@   ensures [C20.key.other] header.Name != deref(keyName) ==> !ret0 && ret1 == nil
+//@        && (forall k Bytes {has(deref(state).keys, k)} :: has(deref(state).keys, k) == old(has(deref(state).keys, k)) && deref(state).keys[k] == old(deref(state).keys[k]))
+//@   ensures [C20.key.duplicate] header.Name == deref(keyName) && old(has(deref(state).keys, deref(keyName)) && deref(state).keys[deref(keyName)] != nil) ==> ret1 != nil
+//@   ensures [C20.key.stored] header.Name == deref(keyName) && ret1 == nil ==> ret0 && deref(state).keys[deref(keyName)] != nil
+//@        && bytes(deref(state).keys[deref(keyName)]) == old(rd(reader)) && len(deref(state).keys[deref(keyName)]) == header.Size
+//@   ensures [C20.key.frame] forall k Bytes {has(deref(state).keys, k)} :: k != deref(keyName) ==> has(deref(state).keys, k) == old(has(deref(state).keys, k)) && deref(state).keys[k] == old(deref(state).keys[k])
+
+//@ # ---- restore: the two key files are handed to the secret store; a key file that was not in the archive is an empty key
+//@ ghost impN(Ref) Int
+//@ ghost impA(Ref) Bytes
+//@ ghost impP(Ref) Bytes
+//@ # (the interface method restates what is proved of its implementation in pkg/secretstore: C11.api.import.*, C20.import.missing)
+//@ extern (berty.tech/weshnet/v2/pkg/secretstore.SecretStore).ImportAccountKeys(s, a, p) (err)
+//@   modifies impN(s), impA(s), impP(s)
+//@   ensures err == nil ==> impN(s) == old(impN(s)) + 1 && impA(s) == bytes(a) && impP(s) == bytes(p)
+//@   ensures err != nil ==> impN(s) == old(impN(s)) && impA(s) == old(impA(s)) && impP(s) == old(impP(s))
+//@   ensures len(a) == 0 || len(p) == 0 ==> err != nil
+//@ func (*restoreAccountState).restoreKeys$1
+//@   for C20
+//@   safety
+//@   requires odb != nil && deref(odb) != nil && deref(odb).secretStore != nil && state != nil && deref(state) != nil
+//@   modifies impN(deref(odb).secretStore), impA(deref(odb).secretStore), impP(deref(odb).secretStore)
+//@   ensures [C20.keys.import] result == nil ==> impN(deref(odb).secretStore) == old(impN(deref(odb).secretStore)) + 1
+//@        && has(deref(state).keys, "account.key") && impA(deref(odb).secretStore) == bytes(deref(state).keys["account.key"])
+//@        && has(deref(state).keys, "account_proof.key") && impP(deref(odb).secretStore) == bytes(deref(state).keys["account_proof.key"])
+//@   ensures [C20.keys.missing] deref(state).keys == nil || !has(deref(state).keys, "account.key") || !has(deref(state).keys, "account_proof.key") ==> result != nil
+
+//@ # ---- restore: the handler of log entries
+//@ pred isEntryName(n) = blen(n) >= 8 && bslice(n, 0, 8) == "entries/"
+//@ func restoreOrbitDBEntry$1
+//@   for C20
+//@   safety
+//@   requires header != nil && reader != nil && coreAPI != nil && deref(coreAPI) != nil && ctx != nil
+//@   modifies rd(reader), dagblk(dagsvc(deref(coreAPI))), dagadds(dagsvc(deref(coreAPI)))
+//@   ensures [C20.entry.other] !isEntryName(header.Name) ==> !ret0 && ret1 == nil && rd(reader) == old(rd(reader))
+//@        && dagblk(dagsvc(deref(coreAPI))) == old(dagblk(dagsvc(deref(coreAPI))))
+//@   ensures [C20.entry.restored] isEntryName(header.Name) && ret1 == nil ==> ret0
+//@        && dagblk(dagsvc(deref(coreAPI))) == store(old(dagblk(dagsvc(deref(coreAPI)))), cidparse_s(bslice(header.Name, 8, blen(header.Name))), old(rd(reader)))
+//@        && dagadds(dagsvc(deref(coreAPI))) == old(dagadds(dagsvc(deref(coreAPI)))) + 1
+//@   ensures [C20.entry.rejected] isEntryName(header.Name) && cborcid(old(rd(reader))) != cidparse_s(bslice(header.Name, 8, blen(header.Name)))
+//@        ==> ret1 != nil && dagblk(dagsvc(deref(coreAPI))) == old(dagblk(dagsvc(deref(coreAPI))))
+
+//@ # ---- restore: the driver. Handlers are arbitrary code (five built-in ones, then the caller's); herrs() counts the
+//@ # errors they returned. A restore that reports success saw no handler or post-processing error.
+//@ ghost herrs() Int
+//@ extern restoreHandlerCall(header, reader) (handled, err)
+//@   havocall
+//@   modifies herrs
+//@   ensures (err != nil ==> herrs == old(herrs) + 1) && (err == nil ==> herrs == old(herrs))
+//@ extern restorePostProcessCall() (err)
+//@   havocall
+//@   modifies herrs
+//@   ensures (err != nil ==> herrs == old(herrs) + 1) && (err == nil ==> herrs == old(herrs))
+//@ func RestoreAccountExport
+//@   for C20
+//@   safety
+//@   calls .Handler as restoreHandlerCall
+//@   calls .PostProcess as restorePostProcessCall
+//@   requires logger != nil
+//@   havocall
+//@   modifies herrs
+//@   ensures [C20.restore.abort-on-error] ret0 == nil ==> herrs == old(herrs)
+//@   # (`handlers` names the parameter: the list iterated is the five built-in handlers followed by it)
+//@   loop 0 invariant herrs == old(herrs) && logger != nil
+//@   loop 1 invariant herrs == old(herrs) && logger != nil && -1 <= rangeindex && rangeindex < 5 + len(handlers)
+//@   loop 2 invariant herrs == old(herrs) && -1 <= rangeindex && rangeindex < 5 + len(handlers)
+//@ # the constructors of the built-in handlers only allocate closures
+//@ func (*restoreAccountState).readKey
+//@   for C20
+//@   safety
+//@ func (*restoreAccountState).restoreKeys
+//@   for C20
+//@   safety
+//@ func restoreOrbitDBEntry
+//@   for C20
+//@   safety
+//@ func restoreOrbitDBHeads
+//@   for C20
+//@   safety
